@@ -7,6 +7,7 @@
 if [ "$1" = "replay" ] && [ -n "$2" ]; then set -- replay "$(realpath "$2")"; fi
 cd "$(dirname "$0")/harness" || exit 2
 export CARGO_NET_OFFLINE=true
+export VERIF_DIR="${VERIF_DIR:-/verif}"
 if ! cargo build --release --offline >build.log 2>&1; then
     echo "HARNESS-ERROR: build failed (see $(pwd)/build.log)"
     tail -40 build.log
@@ -35,8 +36,9 @@ if [ "$1" = "C15" ]; then
     ./target/release/rmv check "$@"; rc1=$?
     RMV_BUILD=checked RMV_EVIDENCE_SUFFIX=-checked ./target/checked/rmv check "$@"; rc2=$?
     python3 - <<'PY'
-import json
-a=json.load(open('/verif/evidence/C15.json')); b=json.load(open('/verif/evidence/C15-checked.json'))
+import json,os
+V=os.environ.get('VERIF_DIR','/verif')
+a=json.load(open(V+'/evidence/C15.json')); b=json.load(open(V+'/evidence/C15-checked.json'))
 ca, cb = a['coverage'], b['coverage']
 for p in cb.get('parts', []): p['part'] += ' [build: overflow checks + debug assertions on]'
 for p in ca.get('parts', []): p['part'] += ' [build: release]'
@@ -46,9 +48,9 @@ ca['samples'] = ca.get('samples', []) + cb.get('samples', [])[:2]
 ca['rule'] += ' || every part ran twice: release build and a build with overflow-checks=on, debug-assertions=on (counts are the sums)'
 a['violations'] = a.get('violations', 0) + b.get('violations', 0)
 a['wall_s'] += b['wall_s']
-json.dump(a, open('/verif/evidence/C15.json', 'w'), indent=1)
+json.dump(a, open(V+'/evidence/C15.json', 'w'), indent=1)
 PY
-    rm -f /verif/evidence/C15-checked.json
+    rm -f "$VERIF_DIR/evidence/C15-checked.json"
     [ $rc1 -eq 1 ] || [ $rc2 -eq 1 ] && exit 1
     [ $rc1 -ne 0 ] && exit $rc1
     exit $rc2
